@@ -3,7 +3,8 @@
 # (tests pass with the change, demo fails with it and passes without), then store it under seeded/.
 set -u
 ID=$1; N=$2
-WT=/tmp/seed/$ID; OUT=/tmp/seed/${ID}_out
+ROOT=${SEEDROOT:-/tmp/seed}
+WT=$ROOT/$ID; OUT=$ROOT/${ID}_out
 DIFF=$OUT/change$N.diff; DEMO=$OUT/demo$N.py
 DEST=/verif/seeded/$ID-$N
 [ -f "$DIFF" ] || { echo "no $DIFF"; exit 2; }
@@ -11,34 +12,35 @@ cd $WT || exit 2
 git checkout -q -- . ; git clean -fdq
 base=$(git rev-parse --short HEAD)
 git apply "$DIFF" || { echo "APPLY FAILED"; exit 2; }
-PYTHONPATH=$WT /venv/bin/python -m pytest -q -p no:cacheprovider --timeout=900 -q > /tmp/seed/$ID-$N.tests.log 2>&1
+PYTHONPATH=$WT /venv/bin/python -m pytest -q -p no:cacheprovider --timeout=900 -q > $ROOT/$ID-$N.tests.log 2>&1
 trc=$?
 # the suite is real-time and flaky under load: re-run only the failed tests, up to 4 times
 for attempt in 1 2 3 4; do
   [ $trc -eq 0 ] && break
-  failed=$(grep -E "^FAILED " /tmp/seed/$ID-$N.tests.log | sed -e 's/^FAILED //' -e 's/ - .*//' | tr '\n' ' ')
+  failed=$(grep -E "^FAILED " $ROOT/$ID-$N.tests.log | sed -e 's/^FAILED //' -e 's/ - .*//' | tr '\n' ' ')
   [ -z "$failed" ] && break
   echo "re-running flaky candidates: $failed"
-  PYTHONPATH=$WT /venv/bin/python -m pytest -q -p no:cacheprovider --timeout=900 -q $failed > /tmp/seed/$ID-$N.tests.log 2>&1
+  PYTHONPATH=$WT /venv/bin/python -m pytest -q -p no:cacheprovider --timeout=900 -q $failed > $ROOT/$ID-$N.tests.log 2>&1
   trc=$?
 done
-tests_tail=$(tail -1 /tmp/seed/$ID-$N.tests.log)
-PYTHONPATH=$WT timeout 300 /venv/bin/python $DEMO > /tmp/seed/$ID-$N.demo_with.log 2>&1; with_rc=$?
+tests_tail=$(tail -1 $ROOT/$ID-$N.tests.log)
+PYTHONPATH=$WT timeout 300 /venv/bin/python $DEMO > $ROOT/$ID-$N.demo_with.log 2>&1; with_rc=$?
 git checkout -q -- . ; git clean -fdq
-PYTHONPATH=$WT timeout 300 /venv/bin/python $DEMO > /tmp/seed/$ID-$N.demo_without.log 2>&1; without_rc=$?
+PYTHONPATH=$WT timeout 300 /venv/bin/python $DEMO > $ROOT/$ID-$N.demo_without.log 2>&1; without_rc=$?
 echo "$ID-$N base=$base tests_rc=$trc ($tests_tail) demo_with_rc=$with_rc demo_without_rc=$without_rc"
 if [ $trc -eq 0 ] && [ $with_rc -ne 0 ] && [ $without_rc -eq 0 ]; then
   mkdir -p $DEST
   cp "$DIFF" $DEST/patch.diff; cp "$DEMO" $DEST/demo.py
-  python3 - "$ID" "$N" "$base" "$tests_tail" "$with_rc" "$without_rc" <<'PY'
+  SEEDROOT=$ROOT python3 - "$ID" "$N" "$base" "$tests_tail" "$with_rc" "$without_rc" <<'PY'
 import json,sys,re,os
 ID,N,base,tests_tail,with_rc,without_rc=sys.argv[1:7]
-notes=open(f'/tmp/seed/{ID}_out/notes.md').read() if os.path.exists(f'/tmp/seed/{ID}_out/notes.md') else ''
+ROOT=os.environ.get("SEEDROOT","/tmp/seed")
+notes=open(f'{ROOT}/{ID}_out/notes.md').read() if os.path.exists(f'{ROOT}/{ID}_out/notes.md') else ''
 meta={"property":ID,"change":int(N),"base_commit":base,
  "origin":"independent sub-agent given only the property text and a scratch worktree",
  "confirmed":{"pytest_with_change":tests_tail,"demo_with_change_rc":int(with_rc),"demo_without_change_rc":int(without_rc),
-   "commands":[f"cd /tmp/seed/{ID} && git apply change{N}.diff && PYTHONPATH=/tmp/seed/{ID} /venv/bin/python -m pytest -q -p no:cacheprovider --timeout=900 -x -q",
-               f"PYTHONPATH=/tmp/seed/{ID} /venv/bin/python demo{N}.py  (with and without the change)"]},
+   "commands":[f"cd {ROOT}/{ID} && git apply change{N}.diff && PYTHONPATH={ROOT}/{ID} /venv/bin/python -m pytest -q -p no:cacheprovider --timeout=900 -x -q",
+               f"PYTHONPATH={ROOT}/{ID} /venv/bin/python demo{N}.py  (with and without the change)"]},
  "needs_to_manifest":"see notes (excerpt below)","notes_excerpt":notes[:6000],"detected_by":None}
 json.dump(meta,open(f'/verif/seeded/{ID}-{N}/meta.json','w'),indent=1)
 PY
